@@ -2,6 +2,7 @@ package main
 
 import (
 	"go/token"
+	"strings"
 
 	"golang.org/x/tools/go/ssa"
 )
@@ -339,12 +340,15 @@ func checkDecodeGuards(p *Program, r *Result, dec, cb *ssa.Function) {
 			r.Unk(dec.String(), "success-return", "", err.Error())
 		} else {
 			facts := tb.FactsAt(ret.Block())
-			need := []struct{ key, text string }{
-				{"separator:low", `strings.LastIndex(P1, "1") >= 1`},
-				{"separator:high", `(strings.LastIndex(P1, "1") + 7) <= len(P1)`},
+			need := []struct{ key, text, alt string }{
+				{"separator:low", `strings.LastIndex(P1, "1") >= 1`, `strings.LastIndexByte(P1, 49) >= 1`},
+				{"separator:high", `(strings.LastIndex(P1, "1") + 7) <= len(P1)`, `(strings.LastIndexByte(P1, 49) + 7) <= len(P1)`},
 			}
 			for _, n := range need {
 				a, ok := hasFactShort(facts, n.text)
+				if !ok {
+					a, ok = hasFactShort(facts, n.alt)
+				}
 				if ok {
 					r.OK(dec.String(), n.key, r.pos(ret), "", guardWitness(p, a))
 				} else {
@@ -380,6 +384,10 @@ func checkDecodeGuards(p *Program, r *Result, dec, cb *ssa.Function) {
 			if a && b && !isNilConst(resultsOf(rt)[2]) {
 				okMixed = true
 			}
+		}
+		if !okMixed {
+			// the same decision taken while scanning: one flag per letter case
+			okMixed = caseFlagsRejection(p, dec)
 		}
 		r.Check(okMixed, dec.String(), "mixed-case", "", "rejected when neither all-lower nor all-upper", "no error return under exactly ToLower(s) != s && ToUpper(s) != s")
 		// every data symbol in the charset
@@ -418,4 +426,87 @@ func checkDecodeGuards(p *Program, r *Result, dec, cb *ssa.Function) {
 		r.Check(n >= 2, cb.String(), "padding", "", "two error returns on the !pad path (surplus bits, non-zero padding)", "convertBits has fewer than two padding rejections on the !pad path")
 	}
 
+}
+
+// caseFlagsRejection: Decode rejects a mixed-case string by two flags set while every byte of
+// the string is scanned: an error return stands under exactly (flagA, flagB, scan completed),
+// both flags start false, and one iteration with byte c turns them into
+// flagA || 'a'<=c<='z' and flagB || 'A'<=c<='Z' for every byte the scan lets pass (all of them
+// ASCII). Decided by evaluating the loop body for all 256 byte values and the four flag states.
+func caseFlagsRejection(p *Program, dec *ssa.Function) bool {
+	if len(dec.Params) == 0 {
+		return false
+	}
+	ep, _ := p.elemPredicate(dec, func(v ssa.Value) bool { return v == ssa.Value(dec.Params[0]) })
+	if ep == nil || ep.Domain != "byte" {
+		return false
+	}
+	tb := p.TB(dec)
+	for _, rt := range returnsOf(dec) {
+		rs := resultsOf(rt)
+		if len(rs) == 0 || isNilConst(rs[len(rs)-1]) || ep.Loop.inLoop(rt.Block()) || !p.completedAt(ep.Loop, rt.Block()) {
+			continue
+		}
+		var flags []*ssa.Phi
+		clean := true
+		for _, a := range tb.FactsAt(rt.Block()) {
+			if a.Kind == "bool" && a.Pol && a.X != nil {
+				if ph, ok := a.X.V.(*ssa.Phi); ok && ph.Block() == ep.Loop.Header {
+					dup := false
+					for _, f := range flags {
+						dup = dup || f == ph
+					}
+					if !dup {
+						flags = append(flags, ph)
+					}
+					continue
+				}
+			}
+			if a.Kind == "cmp" && a.Op == ">=" && strings.HasSuffix(a.String(), ">= len(P1)") {
+				continue // the scan ran to the end
+			}
+			clean = false
+		}
+		if !clean || len(flags) != 2 {
+			continue
+		}
+		// both start false
+		startFalse := true
+		for _, ph := range flags {
+			for k, pb := range ep.Loop.Header.Preds {
+				if ep.Loop.blocks()[pb] || ep.Loop.inLoop(pb) {
+					continue
+				}
+				if c, ok := ph.Edges[k].(*ssa.Const); !ok || c.Value == nil || c.Value.ExactString() != "false" {
+					startFalse = false
+				}
+			}
+		}
+		if !startFalse {
+			continue
+		}
+		for _, order := range [][2]int{{0, 1}, {1, 0}} {
+			lo, up := flags[order[0]], flags[order[1]]
+			good := true
+			for c := int64(0); c <= 255 && good; c++ {
+				for st := 0; st < 4 && good; st++ {
+					env := map[*ssa.Phi]bool{lo: st&1 != 0, up: st&2 != 0}
+					out, res := ep.FlagStep(c, env)
+					switch res {
+					case 0:
+					case 1:
+						if c > 127 || out[lo] != (env[lo] || (c >= 'a' && c <= 'z')) || out[up] != (env[up] || (c >= 'A' && c <= 'Z')) {
+							good = false
+						}
+					default:
+						good = false
+					}
+				}
+			}
+			if good {
+				return true
+			}
+		}
+	}
+	return false
 }
